@@ -45,6 +45,23 @@ CHECKS.update({
                      "after every step / only at explicit read events), the real market's views are compared with View(st)"),
 })
 
+DERIBIT_TECH = ("TLA+ spec Deribit.tla (option account, visible order book, settlement) model-checked by TLC (BFS + simulation, "
+                "state invariants and Act_C15_*/Act_C16_* action properties, DEV switches); TLC behaviours replayed into the real "
+                "DeribitOptionMarket (C15: direct calls; C16: through the real Actuator bar loop) with every step compared")
+CHECKS.update({
+    "C15": dict(technique=DERIBIT_TECH, design="3/C15",
+                text="TLC explores books of 0-4 levels (zero and fractional sizes) x cash x order sizes x market/limit/cap pricing on "
+                     "both sides, deposits, withdrawals and a refresh, and checks fills, fee rule, cash ledger, position balance; "
+                     "each graph path and simulated behaviour is replayed into DeribitOptionMarket and returned orders, fee, cash, "
+                     "positions, both instruments' asks/bids and equity are compared exactly after every step"),
+    "C16": dict(technique=DERIBIT_TECH, design="3/C16",
+                text="TLC explores holdings of a call and a put over underlying paths around the strike, expiries on / between / off "
+                     "hourly bars and before/after the window, delisted instruments, on three bar grids (hourly alone, minutely with a "
+                     "minutely co-market, only hours with rows); each behaviour becomes synthetic market data and a scripted strategy "
+                     "run through the real Actuator; Deliver/Expired records, balance and positions per bar and trade rejection on "
+                     "closed bars are compared with the spec"),
+})
+
 NOT_YET = "check not built yet in this round (see DESIGN.md section 3 for the planned spec clauses)"
 
 
